@@ -48,6 +48,9 @@ func c08QuickBatches() [][]uint32 {
 			}
 		}
 	}
+	for _, f := range []float32{128 + 1.0/256, 128 + 1.0/200, 128 + 1.0/129, -128 - 1.0/256, -128 - 1.0/200, -128 - 1.0/129, 64 + 1.0/256, -64 - 1.0/256, 48.01, -10.005, -0.001, 1.0083} {
+		add3(f) // just outside the low-resolution range resp. just beside a whole number
+	}
 	for k := -8192 - 2; k <= 8192+2; k++ { // multiples of 1/64 in [-128,128] and neighbours
 		add3(float32(k) / 64)
 	}
@@ -129,6 +132,7 @@ func c08Run(w *mc.W, u int) {
 		st.chunkLengths()
 	case u < nq+4+c08ThoroughUnits:
 		base := uint32(u-nq-4) << 20
+		st.lean = true
 		buf := make([]uint32, c08Batch)
 		for off := uint32(0); off < 1<<20; off += c08Batch {
 			if w.Expired() {
@@ -164,6 +168,7 @@ func c08Replay(w *mc.W, data json.RawMessage) error {
 }
 
 type c08State struct {
+	lean bool // fewer arc variants per batch (the 2^32 sweep)
 	w    *mc.W
 	ps   ref.Parser
 	rd   rec.Dest
@@ -428,6 +433,9 @@ func (st *c08State) batch(vals []uint32) {
 	}
 	// --- arc rotation (angle) and arc flags (natural)
 	for variant := 0; variant < 4; variant++ { // {high, low} resolution x {absolute, relative}: the angle is no coordinate in any of them
+		if st.lean && (variant == 1 || variant == 2) {
+			continue // the complete sweep of the thorough tier: high/absolute and low/relative
+		}
 		var e encode.Encoder
 		e.HighResolutionCoordinates = variant&1 == 0
 		e.StartPath(0, 0, 0)
